@@ -287,6 +287,6 @@ def check(case):
 def components(tier, disabled):
     q = tier == "quick"
     return {
-        "history": {"strategy": history_case(disabled), "check": check, "examples": 160 if q else 3000, "min_per_shard": 5,
+        "history": {"strategy": history_case(disabled), "check": check, "examples": 160 if q else 3000, "min_per_shard": 5, "flaky_is_violation": True,
                     "sample": lambda c, i: {"ops": c["ops"], "programs": [RCFG(p).text for p in c["pool"]]}},
     }
